@@ -8,7 +8,9 @@
 //    instantiated calls, from several initial states.  A case = (initial state, first operation, residue class of the
 //    second operation); deeper levels are enumerated inside the case.  Every sequence is executed on FRESH objects by
 //    replaying its prefix (no cloning of the object under test) and compared with the model after its last operation.
-//    A sequence whose last operation violates the model is reported and not extended.
+//    A sequence whose last operation violates the model is reported and not extended.  The first g_fullLevels operations
+//    of a sequence range over the full alphabet of the class, later ones over a reduced alphabet (stated per class in
+//    ops()); argument domains are positions {first, middle, last}, all removal masks, capacities around the current one.
 //  * vector algebra (double and Rational): every operation on every pair of representations of all 27 vectors of
 //    dimension 3 over a 3-letter alphabet (dense, sparse in every nonzero order, semi-sparse setup in every index order /
 //    not set up, unit vectors), judged by dense arithmetic over GMP rationals; sorter.h and StableSum on exhaustive
@@ -16,8 +18,9 @@
 //
 // "Gates": a few operation instances are known to corrupt memory on the unchanged tree (see known_findings.json).  They
 // are executed only as the LAST operation of a sequence and only inside a forked child (so that the corruption cannot
-// leak into other sequences); such sequences are never extended.  In the AddressSanitizer flavour every gate is probed
-// once at start-up and removed when the sanitizer sees nothing (i.e. after the defect has been repaired).
+// leak into other sequences); such sequences are never extended, and gated instances whose trigger is frequent are only
+// enumerated up to the gate depth.  In the AddressSanitizer flavour every gate is probed once at start-up and removed when
+// the sanitizer sees nothing in any of its probes (i.e. after the defect has been repaired).
 #include "soplex/spxdefines.h"
 #include "soplex/rational.h"
 #include "soplex/dataset.h"
@@ -104,8 +107,14 @@ static ChildResult in_child(F fn)
       memset(&sa, 0, sizeof sa);
       sa.sa_handler = child_sig;
       for(int s : {SIGSEGV, SIGBUS, SIGFPE, SIGILL, SIGABRT}) sigaction(s, &sa, 0);
+      // a runaway step is cut by CPU time (a loaded machine must not look like a hang); wall-clock alarm only as a back-stop
+      struct rlimit rl;
+      rl.rlim_cur = ASAN ? 5 : 2;
+      rl.rlim_max = rl.rlim_cur + 1;
+      setrlimit(RLIMIT_CPU, &rl);
+      signal(SIGXCPU, SIG_DFL);
       signal(SIGALRM, SIG_DFL);
-      alarm(ASAN ? 10 : 3);
+      alarm(120);
       Fail f;
       try { fn(f); }
       catch(const std::exception& e) { f.set("exception", e.what()); }
@@ -127,7 +136,7 @@ static ChildResult in_child(F fn)
    if(WIFSIGNALED(st))
    {
       r.bad = true;
-      r.rule = WTERMSIG(st) == SIGALRM ? "hang" : "crash-sig" + std::to_string(WTERMSIG(st));
+      r.rule = (WTERMSIG(st) == SIGALRM || WTERMSIG(st) == SIGXCPU || WTERMSIG(st) == SIGKILL) ? "hang" : "crash-sig" + std::to_string(WTERMSIG(st));
       r.detail = "isolated child terminated by signal " + std::to_string(WTERMSIG(st));
    }
    else if(WIFEXITED(st) && WEXITSTATUS(st) >= 100)
